@@ -3,7 +3,7 @@
    The engine stores facts and rules in hash maps; the model makes the order explicit (lists)
    and the theorems quantify over it. *)
 From Biscuit Require Import Model.Determinism Spec.DatalogSpec Proofs.ValueProofs Proofs.DatalogProofs
-     Proofs.AuthProofs Proofs.DeterminismProofs.
+     Proofs.AuthProofs Proofs.DeterminismProofs Proofs.DeterminismSetProofs.
 From Coq Require Import Permutation.
 
 (* runs started from permuted facts and rules end in the same fact set (origins as sets) *)
@@ -46,6 +46,55 @@ Theorem C11_check_all_outcome_set : forall (orc : oracles) r (ms ms' : list (ori
 Proof. exact check_all_any_order. Qed.
 Print Assumptions C11_check_all_outcome_set.
 
+(* the whole decision procedure: in whatever order the fact store hands out its facts (one
+   permutation of the saturated fact list, the same for all the queries of the authorization),
+   the outcome -- acceptance, policy index, list of failed checks, or "execution error" -- is one
+   of those the set-valued evaluator lists (errors compared up to their kind: [oclass]).  This is
+   the inclusion the correspondence check tests on every case. *)
+Theorem C11_outcome_in_set : forall (orc : oracles) fs fs' t a,
+  Permutation fs fs' ->
+  exists y, In y (decide_set orc fs t a) /\ oclass y = oclass (decide orc true fs' t a).
+Proof. exact decide_in_set. Qed.
+Print Assumptions C11_outcome_in_set.
+
+(* hence, outside the known class -- whenever the evaluator finds a single outcome, which is the
+   case for every error-free program and for every program whose erroring bindings cannot
+   coexist with a deciding one -- the outcome is a function of the fact SET: every order gives
+   it, and any two orders agree *)
+Theorem C11_deterministic_outside_known_class : forall (orc : oracles) fs fs' fs'' t a o,
+  decide_set orc fs t a = [o] ->
+  Permutation fs fs' -> Permutation fs fs'' ->
+  oclass (decide orc true fs' t a) = oclass o /\
+  oclass (decide orc true fs' t a) = oclass (decide orc true fs'' t a).
+Proof.
+  intros orc fs fs' fs'' t a o S P1 P2. split.
+  - apply (decide_unique orc fs fs' t a o P1 S).
+  - apply (decide_two_orders orc fs fs' fs'' t a o P1 P2 S).
+Qed.
+Print Assumptions C11_deterministic_outside_known_class.
+
+(* the same through evaluation: two authorizations whose worlds hold the same facts and rules
+   inserted in different orders.  When both fixpoint computations end, the second outcome is
+   in the set computed from the first one's facts; and when that set is a singleton both
+   authorizations answer it.  (The set-valued evaluator cannot tell apart two fact lists that
+   hold the same facts: decide_set_equiv.) *)
+Theorem C11_authorize_outcome_in_set :
+  forall (orc : oracles) facts facts' rules rules' n m fs fs' t a,
+  Permutation facts facts' -> Permutation rules rules' ->
+  saturate orc n rules facts = Ok (Some fs) ->
+  saturate orc m rules' facts' = Ok (Some fs') ->
+  (exists y, In y (decide_set orc fs t a) /\ oclass y = oclass (decide orc true fs' t a)) /\
+  decide_set orc fs' t a = decide_set orc fs t a /\
+  (forall o, decide_set orc fs t a = [o] ->
+     oclass (decide orc true fs' t a) = oclass o /\ oclass (decide orc true fs t a) = oclass o).
+Proof.
+  intros orc facts facts' rules rules' n m fs fs' t a P1 P2 S1 S2.
+  split; [apply (authorize_in_set orc facts facts' rules rules' n m fs fs' t a P1 P2 S1 S2)|].
+  split; [apply decide_set_equiv; apply (C11_runs_equivalent orc facts facts' rules rules' n m fs fs' P1 P2 S1 S2)|].
+  intros o S. apply (authorize_unique orc facts facts' rules rules' n m fs fs' t a o P1 P2 S1 S2 S).
+Qed.
+Print Assumptions C11_authorize_outcome_in_set.
+
 (* the full statement (the outcome is a function of token, authorizer and limits only) is
    FALSE of the faithful model: a check that sees one matching and one erroring binding has
    two outcomes depending on which binding is met first.  Known finding
@@ -67,3 +116,11 @@ Example C11_ex_invariant :
 Proof.
   cbv zeta. split; [apply facts_equiv_perm; apply perm_swap|]. split; [vm_compute; exact I|vm_compute; reflexivity].
 Qed.
+
+(* non-vacuity of the set theorems: a single-outcome program (with a partial operation in its
+   check), and the known-class witness with its two outcomes, both reached *)
+Example C11_ex_single_outcome :
+  decide_set nd_orc [nd_f 1; nd_f 2] nd_token nd_auth = [OAllow 0] /\
+  decide nd_orc true [nd_f 2; nd_f 1] nd_token nd_auth = OAllow 0 /\
+  length (decide_set nd_orc [nd_f 1; nd_f 0] nd_token nd_auth) = 2%nat.
+Proof. vm_compute. repeat split. Qed.
